@@ -48,6 +48,8 @@ class VTransport(asyncio.Transport):
         self.writes = []                    # every write (bytes), in order
         self.bytes_written = 0
         self.write_cap = None               # C10 output cap (bytes)
+        self.wlimit = None                  # (high, low) write-buffer water marks: None = unbounded kernel buffer
+        self.wpaused = False
         self.next_label = None
         self._extra = {'sockname': sockname, 'peername': peername,
                        'socket': None}
@@ -83,6 +85,7 @@ class VTransport(asyncio.Transport):
             self.loop.budget_tripped = 'output cap %d exceeded' % self.write_cap
             raise WorkBudgetExceeded(self.loop.budget_tripped)
         self.outq.append(data)
+        self._maybe_pause_protocol()
         self.loop.n_writes += 1
         if self.loop.n_writes > self.loop.write_budget:
             self.loop.budget_tripped = 'more than %d transport writes in one execution' \
@@ -92,6 +95,21 @@ class VTransport(asyncio.Transport):
 
     def writelines(self, lines):
         self.write(b''.join(lines))
+
+    def queued_bytes(self):
+        return sum(len(c) for c in self.outq if c is not EOF)
+
+    def _maybe_pause_protocol(self):
+        # like asyncio's _FlowControlMixin: undelivered output above the high-water mark pauses the writer
+        if self.wlimit is not None and not self.wpaused and self.queued_bytes() > self.wlimit[0]:
+            self.wpaused = True
+            self.protocol.pause_writing()
+
+    def _maybe_resume_protocol(self):
+        if self.wpaused and self.queued_bytes() <= self.wlimit[1]:
+            self.wpaused = False
+            if not self.lost:
+                self.protocol.resume_writing()
 
     def can_write_eof(self):
         return True
@@ -505,6 +523,8 @@ class VLoop(asyncio.BaseEventLoop):
                     need = 0
             data = b''.join(parts)
         self.call_soon(self._deliver_data, t, data)
+        if t.peer.wpaused:
+            self.call_soon(t.peer._maybe_resume_protocol)
         return data
 
     def inject(self, t, data):
